@@ -32,7 +32,9 @@ pub struct Parsed {
 
 pub trait Format: Sync {
     fn name(&self) -> String;
-    fn serialize(&self, quads: &[MQuad], w: SimWriter) -> SerResult;
+    /// `src`: 0 = an iterator of quads, 1 = `serialize_dataset/graph` over a Vec-backed store,
+    /// 2 = the same over an in-memory Fast store (set order, duplicates merged)
+    fn serialize(&self, quads: &[MQuad], w: SimWriter, src: u8) -> SerResult;
     fn parse(&self, r: SimReader) -> Parsed;
     /// the code iterates `HashMap`s: run every call on a fresh thread with the run's hash seed
     fn hash_sensitive(&self) -> bool {
@@ -54,6 +56,56 @@ type SQuad = ([SimpleTerm<'static>; 3], Option<SimpleTerm<'static>>);
 
 fn squads(quads: &[MQuad]) -> Vec<SQuad> {
     quads.iter().map(quad_to_simple).collect()
+}
+
+fn ser_result2<T, E1, E2>(r: Result<T, StreamError<E1, E2>>) -> SerResult
+where
+    E1: std::error::Error + Send + Sync + 'static,
+    E2: std::error::Error + Send + Sync + 'static,
+{
+    match r {
+        Ok(_) => SerResult::Ok,
+        Err(StreamError::SinkError(e)) => SerResult::Sink(Box::new(e)),
+        Err(StreamError::SourceError(e)) => SerResult::Source(Box::new(e)),
+    }
+}
+
+/// Serialize quads with a QuadSerializer from the chosen kind of source.
+fn ser_quads<S: QuadSerializer>(ser: &mut S, sq: &[SQuad], src: u8) -> SerResult {
+    use sophia_api::dataset::MutableDataset;
+    match src {
+        1 => {
+            let d: Vec<SQuad> = sq.to_vec();
+            ser_result2(ser.serialize_dataset(&d).map(|_| ()))
+        }
+        2 => {
+            let mut d = sophia_inmem::dataset::FastDataset::new();
+            for q in sq {
+                d.insert(&q.0[0], &q.0[1], &q.0[2], q.1.as_ref()).expect("ORACLE: FastDataset insert");
+            }
+            ser_result2(ser.serialize_dataset(&d).map(|_| ()))
+        }
+        _ => ser_result(ser.serialize_quads(quad_src(sq)).map(|_| ())),
+    }
+}
+
+/// Serialize the triples (graph names dropped) with a TripleSerializer.
+fn ser_triples<S: TripleSerializer>(ser: &mut S, sq: &[SQuad], src: u8) -> SerResult {
+    use sophia_api::graph::MutableGraph;
+    match src {
+        1 => {
+            let g: Vec<[SimpleTerm<'static>; 3]> = sq.iter().map(|q| q.0.clone()).collect();
+            ser_result2(ser.serialize_graph(&g).map(|_| ()))
+        }
+        2 => {
+            let mut g = sophia_inmem::graph::FastGraph::new();
+            for q in sq {
+                g.insert(&q.0[0], &q.0[1], &q.0[2]).expect("ORACLE: FastGraph insert");
+            }
+            ser_result2(ser.serialize_graph(&g).map(|_| ()))
+        }
+        _ => ser_result(ser.serialize_triples(triple_src(sq)).map(|_| ())),
+    }
 }
 
 fn quad_src<'a>(
@@ -124,14 +176,14 @@ impl Format for Nx {
             self.reader
         )
     }
-    fn serialize(&self, quads: &[MQuad], w: SimWriter) -> SerResult {
+    fn serialize(&self, quads: &[MQuad], w: SimWriter, src: u8) -> SerResult {
         let sq = squads(quads);
         if self.triples {
             let mut ser = sophia_turtle::serializer::nt::NtSerializer::new(w);
-            ser_result(ser.serialize_triples(triple_src(&sq)).map(|_| ()))
+            ser_triples(&mut ser, &sq, src)
         } else {
             let mut ser = sophia_turtle::serializer::nq::NqSerializer::new(w);
-            ser_result(ser.serialize_quads(quad_src(&sq)).map(|_| ()))
+            ser_quads(&mut ser, &sq, src)
         }
     }
     fn parse(&self, r: SimReader) -> Parsed {
@@ -184,18 +236,18 @@ impl Format for Ttl {
             self.indentation
         )
     }
-    fn serialize(&self, quads: &[MQuad], w: SimWriter) -> SerResult {
+    fn serialize(&self, quads: &[MQuad], w: SimWriter, src: u8) -> SerResult {
         let sq = squads(quads);
         if self.trig {
             let mut ser =
                 sophia_turtle::serializer::trig::TrigSerializer::new_with_config(w, self.config());
-            ser_result(ser.serialize_quads(quad_src(&sq)).map(|_| ()))
+            ser_quads(&mut ser, &sq, src)
         } else {
             let mut ser = sophia_turtle::serializer::turtle::TurtleSerializer::new_with_config(
                 w,
                 self.config(),
             );
-            ser_result(ser.serialize_triples(triple_src(&sq)).map(|_| ()))
+            ser_triples(&mut ser, &sq, src)
         }
     }
     fn parse(&self, r: SimReader) -> Parsed {
@@ -219,11 +271,11 @@ impl Format for Xml {
     fn name(&self) -> String {
         format!("rdfxml/indent={}", self.indentation)
     }
-    fn serialize(&self, quads: &[MQuad], w: SimWriter) -> SerResult {
+    fn serialize(&self, quads: &[MQuad], w: SimWriter, src: u8) -> SerResult {
         let sq = squads(quads);
         let cfg = sophia_xml::serializer::RdfXmlConfig::new().with_indentation(self.indentation);
         let mut ser = sophia_xml::serializer::RdfXmlSerializer::new_with_config(w, cfg);
-        ser_result(ser.serialize_triples(triple_src(&sq)).map(|_| ()))
+        ser_triples(&mut ser, &sq, src)
     }
     fn parse(&self, r: SimReader) -> Parsed {
         collect_triples(sophia_xml::parser::parse_bufread(r))
@@ -279,10 +331,10 @@ impl Format for JsonLd {
     fn hash_sensitive(&self) -> bool {
         true
     }
-    fn serialize(&self, quads: &[MQuad], w: SimWriter) -> SerResult {
+    fn serialize(&self, quads: &[MQuad], w: SimWriter, src: u8) -> SerResult {
         let sq = squads(quads);
         let mut ser = sophia_jsonld::JsonLdSerializer::new_with_options(w, self.options());
-        ser_result(ser.serialize_quads(quad_src(&sq)).map(|_| ()))
+        ser_quads(&mut ser, &sq, src)
     }
     fn parse(&self, r: SimReader) -> Parsed {
         let p = sophia_jsonld::JsonLdParser::new_with_options(self.options());
